@@ -30,6 +30,8 @@ OneHotItems(ev) ==
                            Weight(c, W[((p - 1) \div K) + 1], ((p - 1) % K) + 1, x - 1)]],
                        [p \in 1..ev.n |-> [x \in 1..16 |-> FAdd(FMulInt(WPOf(ev), 4), FloorOf(ev))]])) >>
 
+\* (these are statements about which control points a window uses, not about accuracy: a window of degree d applies
+\*  d(d-1)/2 nested rplus/rminus, so the comparison uses the algorithm-grade tolerance 2^12 working precisions)
 \* Lie group trajectory: the last point of each window is the window's last control point; for degree 2
 \* point j of the window (A, B) is A exp(j/K tau) with tau the verified logarithm of A^-1 B
 GroupItems(ev) ==
@@ -42,7 +44,7 @@ GroupItems(ev) ==
             [w \in 1..Len(W) |->
                LET last == M(g, DV(ev.traj[W[w][c.d] + 1]))
                    got  == M(g, DV(ev.curve[w * K]))
-               IN Item("window_end", MRatioMilli(got, last, TolMat(AbsR(g, last), FMulInt(WPOf(ev), 16), Z, FloorOf(ev))))]
+               IN Item("window_end", MRatioMilli(got, last, TolMat(AbsR(g, last), FMulInt(WPOf(ev), 4096), Z, FloorOf(ev))))]
             \o (IF c.d # 2 THEN << >> ELSE
                 [q \in 1..ev.n |->
                    LET w == ((q - 1) \div K) + 1   j == ((q - 1) % K) + 1
@@ -50,11 +52,11 @@ GroupItems(ev) ==
                        A == M(g, DV(ev.traj[ia]))   B == M(g, DV(ev.traj[ib]))
                        tau == DV(ev.wit[ia])
                        witOK == ib = (ia % c.N) + 1
-                                /\ MRatioMilli(MMul(A, ExpOf(g, tau)), B, TolMat(MMul(AbsR(g, A), SExp(g, tau)), FMulInt(WPOf(ev), 16), Z, FloorOf(ev))) <= 1000
+                                /\ MRatioMilli(MMul(A, ExpOf(g, tau)), B, TolMat(MMul(AbsR(g, A), SExp(g, tau)), FMulInt(WPOf(ev), 4096), Z, FloorOf(ev))) <= 1000
                        P == MMul(A, ExpOf(g, VScale(tau, FDiv(FInt(j), FInt(K)))))
                    IN Item("geodesic", IF ~witOK THEN 2000000000
                                        ELSE MRatioMilli(M(g, DV(ev.curve[q])), P,
-                                              TolMat(MMul(AbsR(g, A), SExp(g, tau)), FMulInt(WPOf(ev), 16), Z, FloorOf(ev))))])
+                                              TolMat(MMul(AbsR(g, A), SExp(g, tau)), FMulInt(WPOf(ev), 4096), Z, FloorOf(ev))))])
 
 DcVerdict(ev) == IF ev.e = "dc" THEN OneHotItems(ev) ELSE IF ev.e = "dcg" THEN GroupItems(ev)
                  ELSE << Item("unknown_event", 2000000000) >>
